@@ -78,7 +78,11 @@ func newScope(rootProvider *provider, parent *scope, ctx context.Context, cancel
 // runInitializers calls the scoped services with no returns (initialization
 // functions). These need to be called when the scope is created.
 func (s *scope) runInitializers() error {
-	for _, descriptor := range s.rootProvider.voidReturnScopedDescriptors {
+	s.rootProvider.voidReturnScopedDescriptorsMu.RLock()
+	initializers := s.rootProvider.voidReturnScopedDescriptors
+	s.rootProvider.voidReturnScopedDescriptorsMu.RUnlock()
+
+	for _, descriptor := range initializers {
 		if _, err := s.createInstance(descriptor); err != nil {
 			return &ResolutionError{
 				ServiceType: descriptor.Type,
@@ -198,13 +202,24 @@ func (s *scope) CreateScope(ctx context.Context) (Scope, error) {
 		return nil, fmt.Errorf("failed to create child scope: %w", err)
 	}
 
-	// Track child
+	// Track child; if this scope or the provider has been closed in the meantime,
+	// the child must not outlive them.
 	s.childrenMu.Lock()
+	if s.children == nil {
+		s.childrenMu.Unlock()
+		_ = child.Close()
+		return nil, ErrScopeDisposed
+	}
 	s.children[child] = struct{}{}
 	s.childrenMu.Unlock()
 
 	// Track in provider
 	s.rootProvider.scopesMu.Lock()
+	if s.rootProvider.scopes == nil {
+		s.rootProvider.scopesMu.Unlock()
+		_ = child.Close()
+		return nil, ErrProviderDisposed
+	}
 	s.rootProvider.scopes[child] = struct{}{}
 	s.rootProvider.scopesMu.Unlock()
 
@@ -301,23 +316,47 @@ func (s *scope) getInstance(key instanceKey) (any, bool) {
 
 // setInstance caches an instance in this scope in a thread-safe manner.
 // It also tracks the instance if it implements the Disposable interface
-// for proper cleanup when the scope is closed.
-func (s *scope) setInstance(descriptor *Descriptor, key instanceKey, instance any) {
+// for proper cleanup when the scope is closed. If the scope has been closed in
+// the meantime the instance is disposed right away and ErrScopeDisposed is returned.
+func (s *scope) setInstance(descriptor *Descriptor, key instanceKey, instance any) error {
 	switch descriptor.Lifetime {
 	case Singleton:
 		s.rootProvider.setSingleton(key, instance)
 	case Scoped:
 		s.instancesMu.Lock()
-		s.instances[key] = instance
-		s.instancesMu.Unlock()
-		fallthrough
-	case Transient:
-		if d, ok := instance.(Disposable); ok {
-			s.disposablesMu.Lock()
-			s.disposables = append(s.disposables, d)
-			s.disposablesMu.Unlock()
+		if s.instances != nil {
+			s.instances[key] = instance
 		}
+		s.instancesMu.Unlock()
+		return s.track(instance)
+	case Transient:
+		return s.track(instance)
 	}
+
+	return nil
+}
+
+// track hands an instance created in this scope over to the scope's disposal list.
+// Close sets the disposed flag before it drains the list under the same mutex, so
+// an instance is either drained by Close or disposed here - never both, never neither.
+func (s *scope) track(instance any) error {
+	d, isDisposable := instance.(Disposable)
+
+	s.disposablesMu.Lock()
+	if atomic.LoadInt32(&s.disposed) != 0 {
+		s.disposablesMu.Unlock()
+		if isDisposable {
+			_ = d.Close()
+		}
+		return ErrScopeDisposed
+	}
+
+	if isDisposable {
+		s.disposables = append(s.disposables, d)
+	}
+	s.disposablesMu.Unlock()
+
+	return nil
 }
 
 var (
@@ -419,7 +458,9 @@ func (s *scope) createInstance(descriptor *Descriptor) (any, error) {
 			Group: descriptor.Group,
 		}
 
-		s.setInstance(descriptor, key, instance)
+		if err := s.setInstance(descriptor, key, instance); err != nil {
+			return nil, err
+		}
 		return instance, nil
 	}
 
@@ -471,7 +512,9 @@ func (s *scope) createInstance(descriptor *Descriptor) (any, error) {
 			Key:   descriptor.Key,
 			Group: descriptor.Group,
 		}
-		s.setInstance(descriptor, key, emptyStruct)
+		if err := s.setInstance(descriptor, key, emptyStruct); err != nil {
+			return nil, err
+		}
 		return emptyStruct, nil
 	}
 
@@ -497,6 +540,7 @@ func (s *scope) createInstance(descriptor *Descriptor) (any, error) {
 
 		// Find the primary service to return
 		var primaryService any
+		var trackErr error
 		for _, reg := range registrations {
 			value := reg.Value
 
@@ -525,7 +569,13 @@ func (s *scope) createInstance(descriptor *Descriptor) (any, error) {
 				Group: reg.Group,
 			}
 
-			s.setInstance(regDescriptor, key, value)
+			if err := s.setInstance(regDescriptor, key, value); err != nil {
+				trackErr = err
+			}
+		}
+
+		if trackErr != nil {
+			return nil, trackErr
 		}
 
 		if primaryService == nil {
@@ -540,6 +590,7 @@ func (s *scope) createInstance(descriptor *Descriptor) (any, error) {
 
 	// Handle multi-return constructors
 	if descriptor.MultiReturnIndex >= 0 {
+		var trackErr error
 		for _, ret := range info.Returns {
 			if ret.IsError {
 				continue
@@ -563,7 +614,13 @@ func (s *scope) createInstance(descriptor *Descriptor) (any, error) {
 				Group: serviceDescriptor.Group,
 			}
 
-			s.setInstance(serviceDescriptor, key, value)
+			if err := s.setInstance(serviceDescriptor, key, value); err != nil {
+				trackErr = err
+			}
+		}
+
+		if trackErr != nil {
+			return nil, trackErr
 		}
 
 		return results[descriptor.MultiReturnIndex].Interface(), nil
@@ -583,7 +640,9 @@ func (s *scope) createInstance(descriptor *Descriptor) (any, error) {
 		Group: descriptor.Group,
 	}
 
-	s.setInstance(descriptor, key, instance)
+	if err := s.setInstance(descriptor, key, instance); err != nil {
+		return nil, err
+	}
 	return instance, nil
 }
 
